@@ -115,6 +115,10 @@ def t_params(r, n):
     used = [i for i in range(k) if r.int(0, 1)]
     params = ", ".join(f"p{i}_{n}: Int" for i in range(k))
     body = " + ".join(["(" * 0 + f"p{i}_{n}" for i in used][:2] or [str(n)])
+    if r.int(0, 3) == 0:
+        # a `let` that shadows a parameter (used or not) and is itself used
+        sh = r.int(0, k - 1)
+        body = f"let p{sh}_{n} = {n + 50}\n  println(string_repr(p{sh}_{n}))\n  " + body
     args = ", ".join(str(n + i) for i in range(k))
     kind = r.int(0, 2)
     if kind == 0:
@@ -144,7 +148,9 @@ def t_repeated_bool(r, n):
 
 def t_unused_values(r, n):
     k = r.int(1, 3)
-    stmts = [r.choice(LITERALS) for _ in range(k)]
+    # literals whose items are calls with an effect: removing the statement would remove the effect
+    impure = [f"[eff_{n}()]", f"(eff_{n}(), 1)", f'Dict["k" => eff_{n}()]', f"[[eff_{n}()], []]"]
+    stmts = [r.choice(LITERALS + impure) for _ in range(k)]
     where = r.int(0, 4)
     if where == 0:
         body = "".join(f"  {v}\n" for v in stmts) + f"  {n}"
@@ -156,7 +162,8 @@ def t_unused_values(r, n):
         body = f"  let clo = fun() {{ {' '.join(stmts)} {n} }}\n  clo()"
     else:
         body = "  " + " ".join(stmts) + f" {n}"
-    return f"fun uvs_{n}(x: Int): Int {{\n{body}\n}}", f"println(string_repr(uvs_{n}(1)))", False
+    return (f"fun eff_{n}(): Int {{\n  println(\"effect {n}\")\n  {n}\n}}\nfun uvs_{n}(x: Int): Int {{\n{body}\n}}",
+            f"println(string_repr(uvs_{n}(1)))", False)
 
 
 def t_unused_vars(r, n):
